@@ -7,6 +7,8 @@ from vlib.harness import Result
 
 def exc_key(exc):
     """Bucket key of an exception raised by the code under test: type + innermost cminx frame."""
+    if getattr(exc, "_verif_invalid_source", False):
+        return "HARNESS:generated-source-is-not-valid-cmake"
     tb = traceback.extract_tb(exc.__traceback__)
     frame = None
     for fr in tb:
